@@ -520,6 +520,8 @@ Definition value_ok (c : char_decl) : bool :=
 Definition char_static_ok (c : char_decl) : bool :=
   uuid_ok (c_uuid c) && value_ok c
   && (match c_name c with Some n => forallb (fun b => (1 <=? b) && (b <? 128)) n | None => true end)
+  (* two descriptor<> options end up in ONE attribute group for which no generate_attribute exists *)
+  && (length (c_descs c) <=? 1)%nat
   && forallb (fun d => (fst d <? 65536) && negb (fst d =? internal_128bit_uuid)
                        && (1 <=? length (snd d))%nat && forallb byte_ok (snd d)) (c_descs c)
   && (match c_handle c with
